@@ -530,6 +530,9 @@ func (t *TableAliasStmtInfo) getAliasTable(alias string) (string, bool) {
 	return table, ok
 }
 
+// the functions below have a parameter named router
+const globalTableRuleType = router.GlobalTableRuleType
+
 // TODO: 删除该函数
 // 根据StmtNode和路由信息生成分片SQL
 func generateShardingSQLs(stmt ast.StmtNode, result *RouteResult, router *router.Router) (map[string]map[string][]string, error) {
@@ -554,6 +557,12 @@ func generateShardingSQLs(stmt ast.StmtNode, result *RouteResult, router *router
 		if !ok {
 			sliceSQLs = make(map[string][]string)
 			ret[sliceName] = sliceSQLs
+		}
+
+		// a global table without explicit databases lists the logical database once per location entry:
+		// the same physical copy must get the statement only once
+		if rule.GetType() == globalTableRuleType && len(ret[sliceName][dbName]) > 0 {
+			continue
 		}
 
 		ret[sliceName][dbName] = append(ret[sliceName][dbName], sb.String())
